@@ -225,18 +225,29 @@ NARY_SUM = r'''        // reference: first error in input order; otherwise fold 
         core::mem::forget(s);
     }
 '''
-NARY_LATEST = r'''        // newest-of skips errors and absents, never errors, keeps the earlier input on ties
-        let mut newest: Option<(i64, Tr)> = None;
+NARY_LATEST = r'''        // newest-of skips errors and absents and never errors: the result is one of the present inputs and no present
+        // input is strictly newer (which one wins a tie is not part of the contract)
+        let mut tmax: Option<i64> = None;
         let mut i = 0;
         while i < N {
-            if let Ev::Some(t, v) = evs[i] {
-                newest = Some(match newest { None => (t, v), Some((tt, vv)) => if t > tt { (t, v) } else { (tt, vv) } });
-            }
+            if let Ev::Some(t, _) = evs[i] { tmax = Some(match tmax { None => t, Some(tt) => max_t(tt, t) }); }
             i += 1;
         }
         let s = Latest::new([@REFS@]);
         let g = s.get();
-        vk_assert!(g == Ok(newest.map(|(t, v)| Datum::new(Time(t), v))), "C02.latest.contract");
+        match tmax {
+            None => { vk_assert!(g == Ok(None), "C02.latest.absent_iff_no_input_present"); }
+            Some(tm) => {
+                let mut is_candidate = false;
+                let mut i = 0;
+                while i < N {
+                    if let Ev::Some(t, v) = evs[i] { if g == Ok(Some(Datum::new(Time(t), v))) { is_candidate = true; } }
+                    i += 1;
+                }
+                vk_assert!(is_candidate, "C02.latest.result_is_a_present_input");
+                vk_assert!(match g { Ok(Some(d)) => d.time.0 == tm, _ => false }, "C02.latest.none_strictly_newer");
+            }
+        }
         @PURE@
         vk_end!();
         core::mem::forget(s);
